@@ -343,6 +343,76 @@ def Body.read (b : Body) (want : Nat) (bs : Bytes) (fin : EndState) : ReadOut ×
             | none => (.err, .failed, r')
           else (.data (r.take n), .chunked (some (c - n)), r')
 
+/-! Compiler-only replacement (`@[csimp]`): `Body.read` asks for `min … bs.length`, and `bs.length`
+    walks the whole remaining stream on every read, which makes discarding a body sent in many small
+    chunks quadratic in the length of the connection's stream.  `(bs.take k).length` is the same number
+    and costs `k`.  The theorems are about `Body.read`; the kernel checks the equality below, the
+    compiled driver uses the right-hand side. -/
+def Body.readFast (b : Body) (want : Nat) (bs : Bytes) (fin : EndState) : ReadOut × Body × Bytes :=
+  match b with
+  | .done => (.eof, .done, bs)
+  | .failed => (.err, .failed, bs)
+  | .cursor d =>
+    if d.isEmpty then (.eof, .cursor [], bs) else (.data (d.take want), .cursor (d.drop want), bs)
+  | .raw =>
+    match bs with
+    | [] => (match fin.stop with
+        | .eof => (.eof, .raw, [])
+        | .reset => (.err, .raw, [])
+        | .pending => (.pending, .raw, []))
+    | _ => (.data (bs.take want), .raw, bs.drop want)
+  | .limited rem =>
+    if rem = 0 then (.eof, .done, bs)
+    else match bs with
+      | [] => (match fin.stop with
+          | .eof => (.eof, .done, [])
+          | .reset => (.err, .limited rem, [])
+          | .pending => (.pending, .limited rem, []))
+      | _ =>
+        let n := (bs.take (min want rem)).length
+        (.data (bs.take n), .limited (rem - n), bs.drop n)
+  | .chunked inChunk =>
+    let start : Option (Nat × Bytes) ⊕ ReadOut × Body × Bytes :=
+      match inChunk with
+      | some c => .inl (some (c, bs))
+      | none =>
+        match readChunkSize bs fin with
+        | .stop _ => .inr (.pending, .chunked none, bs)
+        | .bad r => .inr (.err, .failed, r)
+        | .ok 0 r =>
+          (match expectCRLF r fin with
+           | some (.ok r') => .inr (.eof, .done, r')
+           | some (.error _) => .inr (.pending, .chunked none, bs)
+           | none => .inr (.err, .failed, r))
+        | .ok c r => .inl (some (c, r))
+    match start with
+    | .inr res => res
+    | .inl none => (.err, .failed, bs)
+    | .inl (some (c, r)) =>
+      match r with
+      | [] => (match fin.stop with
+          | .eof => (.eof, .done, [])
+          | .reset => (.err, .failed, [])
+          | .pending => (.pending, .chunked (some c), []))
+      | _ =>
+        if want < c then
+          let n := (r.take want).length
+          (.data (r.take n), .chunked (some (c - n)), r.drop n)
+        else
+          let n := (r.take c).length
+          let r' := r.drop n
+          if n = c then
+            match expectCRLF r' fin with
+            | some (.ok r'') => (.data (r.take n), .chunked none, r'')
+            | some (.error _) => (.pending, .chunked (some 0), r')
+            | none => (.err, .failed, r')
+          else (.data (r.take n), .chunked (some (c - n)), r')
+
+@[csimp] theorem Body.read_eq_readFast : @Body.read = @Body.readFast := by
+  funext b want bs fin
+  cases b <;> simp only [Body.read, Body.readFast, List.length_take] <;> rfl
+
+
 /-- Read until `total` bytes were obtained (asking for `min bufSize (total - got)` each time), or
     until a read does not return data.  `fuel` bounds the number of reads.
     Returns (bytes obtained, last non-data outcome if any, reader, remaining bytes). -/
